@@ -5,6 +5,7 @@ import (
 	"errors"
 	"fmt"
 	"io"
+	"math/rand/v2"
 	"sync"
 
 	"github.com/apache/thrift/lib/go/thrift"
@@ -32,12 +33,16 @@ type SimStream struct {
 	never  chan struct{}
 	out    []byte
 	seq    int
+	ended  bool
 
 	// hooks (called without st.mu held)
 	OnFrame     func(frame []byte)        // complete frame written by the system under test
 	OnDelivered func(seq int)             // inbound item seq fully readable
 	OnOpen      func(epoch int)           // after a successful Open
 	OnClose     func(epoch int)           // after Close by the system under test
+	OnReadErr   func(epoch int, err error) // a Read call returned the injected end/error
+	OnStaleRead func(readerEpoch, epoch int) // a read loop started for an earlier open reads the current connection
+	openSteps   []int
 	// fault plan: consulted with the 0-based index of the call within the run
 	OpenFault  func(i int) error
 	CloseFault func(i int) error
@@ -97,8 +102,9 @@ func (st *SimStream) Open() error {
 	st.mu.Lock()
 	st.open = true
 	st.Epoch++
+	st.openSteps = append(st.openSteps, st.s.Step)
 	ep := st.Epoch
-	st.wire, st.in, st.inErr, st.out = nil, nil, nil, nil
+	st.wire, st.in, st.inErr, st.out, st.ended, st.devPending = nil, nil, nil, nil, false, false
 	select {
 	case <-st.inWake:
 	default:
@@ -150,8 +156,34 @@ func (st *SimStream) wakeReader() {
 }
 
 func (st *SimStream) Read(p []byte) (int, error) {
+	st.mu.Lock()
+	myEpoch := st.Epoch
+	// which open does the calling read loop belong to? (the go statement that
+	// started it ran inside that Open, after the stream's Open returned)
+	if sp := simrt.SpawnStep(); sp >= 0 && st.OnStaleRead != nil {
+		re := 0
+		for i, os := range st.openSteps {
+			if os <= sp {
+				re = i + 1
+			}
+		}
+		if re != 0 && re != myEpoch {
+			cb := st.OnStaleRead
+			st.mu.Unlock()
+			cb(re, myEpoch)
+			st.mu.Lock()
+		}
+	}
+	st.mu.Unlock()
 	for {
 		st.mu.Lock()
+		if st.Epoch != myEpoch {
+			// this call began on a connection that has since been closed (and
+			// replaced): like a Read on the old socket it fails, it never sees
+			// the new connection's bytes
+			st.mu.Unlock()
+			return 0, thrift.NewTTransportException(thrift.NOT_OPEN, "read: use of closed connection")
+		}
 		i := st.Reads
 		st.Reads++
 		rf := st.ReadFault
@@ -170,7 +202,12 @@ func (st *SimStream) Read(p []byte) (int, error) {
 		}
 		if st.inErr != nil {
 			err := st.inErr
+			ep := st.Epoch
+			cb := st.OnReadErr
 			st.mu.Unlock()
+			if cb != nil {
+				cb(ep, err)
+			}
 			return 0, err
 		}
 		if !st.open {
@@ -264,6 +301,14 @@ func (st *SimStream) PeerEnd(err error) int {
 
 func (st *SimStream) enqueue(it wireItem) int {
 	st.mu.Lock()
+	if st.ended {
+		// the connection has already ended in this epoch: nothing more arrives
+		st.mu.Unlock()
+		return -1
+	}
+	if it.err != nil {
+		st.ended = true
+	}
 	st.seq++
 	it.seq = st.seq
 	st.wire = append(st.wire, it)
@@ -284,7 +329,11 @@ func (st *SimStream) scheduleDelivery(ep int) {
 // deliver moves one chunk from the wire to the readable buffer.
 func (st *SimStream) deliver(ep int) {
 	st.mu.Lock()
-	if ep != st.Epoch || len(st.wire) == 0 {
+	if ep != st.Epoch {
+		st.mu.Unlock()
+		return
+	}
+	if len(st.wire) == 0 {
 		st.devPending = false
 		st.mu.Unlock()
 		return
@@ -298,7 +347,12 @@ func (st *SimStream) deliver(ep int) {
 	} else {
 		n := len(it.b)
 		// chunk size: whole item (most of the time), or a short read
-		switch st.rc.Tape.Pick("chunk", 6, nil) {
+		switch st.rc.Tape.Pick("chunk", 6, func(r *rand.Rand) int {
+			if r.IntN(10) < 6 {
+				return 0
+			}
+			return 1 + r.IntN(4)
+		}) {
 		case 1:
 			n = 1
 		case 2:
